@@ -1141,6 +1141,9 @@ func genStake(g *G) *Op {
 	var amt sdkmath.Int
 	if asset == ptypes.Elys {
 		amt = g.ModestAmount("stake", sdkmath.NewInt(5_000_000_000))
+		if g.Int("stake/small", 0, 3) == 0 {
+			amt = sdkmath.NewInt(int64(g.Int("stake/smallamt", 1, 1_500_000))) // around the stake the vote ante handler asks for
+		}
 	} else {
 		amt = g.Amount("stake", g.claimedOf(u.Addr.String(), asset))
 	}
@@ -1427,6 +1430,7 @@ var AllOps = map[string]func(*G) *Op{
 	"perpetual.open": genPerpOpen, "perpetual.close": genPerpClose, "perpetual.update_stop_loss": genPerpUpdateSL,
 	"perpetual.update_take_profit": genPerpUpdateTP, "perpetual.close_positions": genPerpClosePositions,
 	"oracle.feed_price": genPriceMove, "oracle.refresh": genRefreshPrices, "oracle.feed_nonfeeder": genFeedByNonFeeder,
+	"gov.submit": genGovSubmit, "gov.vote": genGovVote, "gov.deposit": genGovDeposit,
 	"masterchef.claim": genMCClaim, "masterchef.add_external_incentive": genAddExternalIncentive,
 	"commitment.commit_claimed": genCommitClaimed, "commitment.uncommit": genUncommit, "commitment.vest": genVest,
 	"commitment.cancel_vest": genCancelVest, "commitment.claim_vesting": genClaimVesting, "commitment.vest_now": genVestNow,
